@@ -2172,3 +2172,165 @@ func REndZLatest(c *core.Ctx) {
 		}
 	}
 }
+
+// ---------------------------------------------------------------------------
+// R-PRESCANSTATE: the pre-scan keeps the same scanner state as the main parse.
+// A parser method with a scan-only mode walks the same text in both modes
+// (R-PRESCANSIB).  What it does next also depends on its local state — in
+// scanCharSet whether a range is open decides if the next `[` starts a
+// subtraction.  A local that the scan-only pass reads must therefore not be
+// updated under `!scanOnly` only.
+// ---------------------------------------------------------------------------
+
+func RPrescanState(c *core.Ctx) {
+	c.Rule("R-PRESCANSTATE", "in every parser method with a scan-only mode parameter, no local variable that a condition outside the main-parse-only regions reads (so: one that steers the scan-only pass too) is assigned inside such a region (`if !scanOnly { … }`): scanner state that steers what is consumed next evolves identically in both passes", 1)
+	p := c.P
+	syn := p.Pkg("syntax")
+	info := syn.TypesInfo
+	errT := types.Universe.Lookup("error").Type()
+	n := 0
+	for _, fd := range p.FuncDecls(syn) {
+		if fd.Body == nil || fd.Recv == nil || p.IsTestFile(fd.Pos()) || fd.Type.Params == nil {
+			continue
+		}
+		var mode types.Object
+		for _, f := range fd.Type.Params.List {
+			for _, id := range f.Names {
+				if strings.EqualFold(id.Name, "scanOnly") {
+					mode = info.ObjectOf(id)
+				}
+			}
+		}
+		if mode == nil {
+			continue
+		}
+		name := core.DeclName(syn, fd)
+		c.Visit(name)
+		// main-parse-only regions
+		var regions []ast.Node
+		ast.Inspect(fd.Body, func(x ast.Node) bool {
+			ifs, ok := x.(*ast.IfStmt)
+			if !ok {
+				return true
+			}
+			switch modeTest(info, ifs.Cond, mode) {
+			case -1:
+				regions = append(regions, ifs.Body)
+			case 1:
+				if ifs.Else != nil {
+					regions = append(regions, ifs.Else)
+				}
+			}
+			return true
+		})
+		inRegion := func(pos token.Pos) ast.Node {
+			for _, r := range regions {
+				if r.Pos() <= pos && pos < r.End() {
+					return r
+				}
+			}
+			return nil
+		}
+		// locals read outside the regions
+		readOutside := map[types.Object]bool{}
+		lhs := map[*ast.Ident]bool{}
+		ast.Inspect(fd.Body, func(x ast.Node) bool {
+			if as, ok := x.(*ast.AssignStmt); ok && (as.Tok == token.ASSIGN || as.Tok == token.DEFINE) {
+				for _, l := range as.Lhs {
+					if id, ok := l.(*ast.Ident); ok {
+						lhs[id] = true
+					}
+				}
+			}
+			return true
+		})
+		// "read" here means: read by a condition (if / for / switch), i.e. steering the scan
+		noteCond := func(e ast.Expr) {
+			if e == nil {
+				return
+			}
+			ast.Inspect(e, func(y ast.Node) bool {
+				if id, ok := y.(*ast.Ident); ok && !lhs[id] && inRegion(id.Pos()) == nil {
+					if o := info.Uses[id]; o != nil {
+						readOutside[o] = true
+					}
+				}
+				return true
+			})
+		}
+		ast.Inspect(fd.Body, func(x ast.Node) bool {
+			switch s := x.(type) {
+			case *ast.IfStmt:
+				noteCond(s.Cond)
+			case *ast.ForStmt:
+				noteCond(s.Cond)
+			case *ast.SwitchStmt:
+				noteCond(s.Tag)
+			case *ast.CaseClause:
+				for _, e := range s.List {
+					noteCond(e)
+				}
+			}
+			return true
+		})
+		ord := 0
+		examined := 0
+		for _, r := range regions {
+			ast.Inspect(r, func(x ast.Node) bool {
+				var targets []ast.Expr
+				var at token.Pos
+				switch s := x.(type) {
+				case *ast.AssignStmt:
+					if s.Tok == token.DEFINE {
+						// only re-assignments of outer variables matter
+						for _, l := range s.Lhs {
+							if id, ok := l.(*ast.Ident); ok && info.Defs[id] == nil {
+								targets = append(targets, id)
+							}
+						}
+					} else {
+						targets = s.Lhs
+					}
+					at = s.Pos()
+				case *ast.IncDecStmt:
+					targets = []ast.Expr{s.X}
+					at = s.Pos()
+				default:
+					return true
+				}
+				for _, t := range targets {
+					id, ok := ast.Unparen(t).(*ast.Ident)
+					if !ok || id.Name == "_" {
+						continue
+					}
+					o := info.ObjectOf(id)
+					v, isVar := o.(*types.Var)
+					if !isVar || v.IsField() || o.Pkg() == nil || o.Parent() == o.Pkg().Scope() {
+						continue
+					}
+					if r.Pos() <= o.Pos() && o.Pos() < r.End() {
+						continue // declared inside the region
+					}
+					if types.Identical(o.Type(), errT) {
+						continue
+					}
+					examined++
+					if !readOutside[o] {
+						continue
+					}
+					n++
+					ord++
+					c.Bad(fmt.Sprintf("%s / main-parse-only update #%d of %s", name, ord, id.Name), at, "`%s` is assigned under `!%s` only, but it is also read where the scan-only pass runs: after this point the two passes are in different states and take different branches over the same text — in scanCharSet an open range that only the main parse closes makes the pre-scan read the next `[` as a subtraction and miss every group behind the class", id.Name, mode.Name())
+				}
+				return true
+			})
+		}
+		if ord == 0 {
+			n++
+			c.OK(name+" / no shared scanner state is updated in the main parse only", fd.Pos(), "%d main-parse-only regions, %d assignments to outer locals in them, none to a variable the scan-only pass reads", len(regions), examined)
+		}
+	}
+	if n == 0 {
+		c.Anchor("parser methods with a scanOnly parameter")
+	}
+}
